@@ -49,9 +49,13 @@ type Closure struct {
 }
 
 type Chan struct {
-	Closed bool
-	Buf    []Value
-	Elem   types.Type
+	Closed  bool
+	Buf     []Value
+	Elem    types.Type
+	Cap     int
+	Sent    uint64 // values ever enqueued
+	Taken   uint64 // values ever dequeued
+	Waiting int    // goroutines blocked receiving
 }
 
 // Poison marks a value the engine could not compute (failed package initialiser,
